@@ -369,3 +369,13 @@ M("c20-modules-reuse-rpms-cache", ["C20"],
   (CO, '        self._modules = self._load_metadata(paths, productmd.modules.Modules)\n        return self._modules', '        obj = self._load_metadata(paths, productmd.modules.Modules)\n        self._modules = obj if self._composeinfo is not None else None\n        return obj'))
 M("c20-error-message-no-location", ["C20"],
   (CO, "        raise RuntimeError('Failed to load metadata from %s' % self.compose_path)", "        raise RuntimeError('Failed to load metadata')"))
+
+# ---- round 8: "keep what the file said" (state carried over from a load into later writes) ---------------------
+M("c02-raw-dict-kept-from-load", ["C02"],
+  (IM, '        self.additional_variants = data.get("additional_variants", [])\n        self.validate()\n',
+       '        self.additional_variants = data.get("additional_variants", [])\n        self._raw = dict(data)\n        self.validate()\n'),
+  (IM, '        if self.unified:\n            # Only add the `unified` field',
+       '        for key, value in getattr(self, "_raw", {}).items():\n            if result.get(key) is None:\n                result[key] = value\n        if self.unified:\n            # Only add the `unified` field'))
+M("c11-readd-attached-variant-elsewhere", ["C11"],
+  (CI, '            if old_parent is not None and old_parent is not self and any(i is variant for i in old_parent.variants.values()):\n                raise ValueError("Variant already belongs to another parent: %s" % variant.uid)\n', ''),
+  (CI, '                if item is not self and any(i is variant for i in item.variants.values()):\n                    # the very same object under a second holder would be in the forest twice\n                    raise ValueError("Variant already belongs to another parent: %s" % variant.uid)\n', ''))
